@@ -13,6 +13,7 @@ CONSTANTS
   Inc = FALSE
   Odd = FALSE
   PrintPaths = FALSE
+  NPre = 0
 VIEW View
 INVARIANTS StateMon
 PROPERTIES StepMon
